@@ -259,3 +259,34 @@ Theorem absolute_duration_spec :
   /\ dur_total_seconds d = total_seconds (Z.abs (d_N d)).
 Proof. exact (absolute_duration_partial float_split_exact_on_D9_proved). Qed.
 Print Assumptions absolute_duration_spec.
+
+(* ---- THE MODEL IS THE CODE.  Gen/DurationFloat.v is translated from /repo's src/pendulum/duration.py on every run by
+   tools/vlib/pyfloat2gallina.py (Python ast -> Gallina over Spec/TdFloat.v's SpecFloat operations, CPython's int/float typing and
+   conversion rules, evaluation order, every raising operation a bind; fails closed outside its fragment).  The hand model
+   Model/Duration.v, about which every theorem above (and C10, C14, C05, C13, C20) speaks, EQUALS that translation for all arguments:
+   a semantic edit of the float code of duration.py breaks one of these three proofs instead of only a source hash. *)
+From PV Require Import Gen.DurationFloat Proofs.DurationFloatFacts.
+
+(* Duration.__new__(days, seconds, microseconds, milliseconds, minutes, hours, weeks, years, months), integer arguments *)
+Theorem model_is_code_duration_new : forall d s us ms mi h w y mo,
+  gen_duration_new d s us ms mi h w y mo = duration_new d s us ms mi h w y mo.
+Proof. exact gen_duration_new_eq. Qed.
+Print Assumptions model_is_code_duration_new.
+
+(* _sign, the lazily cached properties hours / minutes / remaining_seconds (first read on a fresh object), total_seconds() with the
+   method resolution Duration / AbsoluteDuration, total_minutes/hours/days/weeks(), invert, in_weeks/days/hours/minutes/seconds() *)
+Theorem model_is_code_duration_accessors : forall d,
+  gen_sign = d_sign /\
+  gen_hours d = dur_hours d /\ gen_minutes d = dur_minutes d /\ gen_remaining_seconds d = dur_remaining_seconds d /\
+  gen_total_seconds d = dur_total_seconds d /\ gen_total_minutes d = dur_total_minutes d /\ gen_total_hours d = dur_total_hours d /\
+  gen_total_days d = dur_total_days d /\ gen_total_weeks d = dur_total_weeks d /\ gen_invert d = dur_invert d /\
+  gen_in_weeks d = dur_in_weeks d /\ gen_in_days d = dur_in_days d /\ gen_in_hours d = dur_in_hours d /\
+  gen_in_minutes d = dur_in_minutes d /\ gen_in_seconds d = dur_in_seconds d.
+Proof. exact accessors_eq. Qed.
+Print Assumptions model_is_code_duration_accessors.
+
+(* AbsoluteDuration.__new__, integer arguments *)
+Theorem model_is_code_absolute_duration : forall d s us ms mi h w y mo,
+  gen_absolute_duration_new d s us ms mi h w y mo = absolute_duration_new d s us ms mi h w y mo.
+Proof. exact gen_absolute_duration_new_eq. Qed.
+Print Assumptions model_is_code_absolute_duration.
